@@ -343,7 +343,7 @@ def multiset_cases(draw, max_leaves=8):
 
 TAGS = ['a', 'b', 'item', 'x']
 ATTR_KEYS = ['id', 'k', 'name']
-TEXTS = [None, '', 't', 'text', ' t ', 'ab']
+TEXTS = [None, '', 't', 'text', ' t ', 'ab', ' ', '\n  ', 'a\u2028b', 'x\x85y']     # also white space only, and Unicode line breaks
 
 
 def xml_docs(max_leaves=5):
@@ -503,7 +503,7 @@ def build(case, which, opts=None):
     """Builds the graphtage tree for case['a'] or case['b'] through the public builder of the case's family."""
     doc = expand(case[which])
     if opts is None:
-        opts = common.build_options(case.get('ds', 'auto'), case.get('le', 'on'))
+        opts = common.build_options(case.get('ds', 'auto'), case.get('le', 'on'), api_none=bool(case.get('api_none')))
     fam = case.get('family', 'json')
     if fam == 'json':
         return gjson.build_tree(doc, opts)
